@@ -91,6 +91,36 @@ def check_C14(ctx, deep=False):
                 j -= 1
             ctx.fail("side-flip-of-an-in-memory-board", ops=[x["op"] for x in wres[j:i + 1] if x["op"] != "evalflip"] + ["evalflip"],
                      position=a, other_side=b)
+    # boards built by the TEXT applier (`position ... moves`, incl. every special two-ply chain: promotions,
+    # castling, en passant): "depends on nothing but placement and side to move" — the value must be that of the
+    # same placement read from a FEN (second pass over the states the first pass produced)
+    tops = []
+    for o in C.genops("pairs", 0, 1) + [x for x in C.genops("walk", ctx.seed + 2, 20 if ctx.quick else 600, 60, 0)]:
+        kd = o.split(" ")[0]
+        if kd == "fen":
+            tops.append(o)
+        elif kd == "pick":
+            tops += ["mk " + o[5:], "evalflip"]
+    tres = C.run_ops(tops)
+    fops, firsts = [], []
+    for i, r in enumerate(tres):
+        if r["M"] != r["I"]:
+            ctx.t2diff(r)
+        if r["op"] == "evalflip" and i and tres[i - 1]["op"].startswith("mk ") and tres[i - 1]["I"].startswith("ok "):
+            st = tres[i - 1]["I"][3:].split(" ")
+            fops += ["fen %s %s %s %s 0 1" % (st[0], st[1], st[2], st[3]), "evalflip"]
+            firsts.append(i)
+    fres = C.run_ops(fops) if fops else []
+    for j, i in enumerate(firsts):
+        ctx.traces += 1
+        a, b = tres[i]["I"], fres[2 * j + 1]["I"]
+        ctx.case(("text-board", i), a.split(" ")[0] not in ("0", "panic"))
+        if a != b:
+            k0 = i
+            while k0 > 0 and not tres[k0]["op"].startswith("fen "):
+                k0 -= 1
+            ctx.fail("value-depends-on-how-the-board-was-built", ops=[x["op"] for x in tres[k0:i + 1] if x["op"] != "evalflip"] + ["evalflip"],
+                     by_text_replay=a, same_placement_from_fen=b, fen=fops[2 * j][4:])
     # the evaluation AS THE SEARCH CONSUMES IT (stand-pat value of the capture search, also on the null-move
     # twins the search builds itself from iteration 4 on): the search of the real code against the model's
     # search, which evaluates with the modelled pure function at every leaf — a value that depends on anything
